@@ -309,6 +309,19 @@ pub fn write_wdt(f: &WdtFile, what: &str) -> Result<Vec<u8>, Fail> {
     if let Err(e) = r {
         vfail!(format!("wdt-write-error:{what}"), "WdtWriter::write ({what}) failed: {e}");
     }
+    // the same file written over the start of a sink that already holds a longer one
+    let mut cur = Cursor::new(vec![0xEEu8; buf.len() + 900]);
+    let r = guard("WdtWriter::write(reused sink)", || WdtWriter::new(&mut cur).write(f))?;
+    let pos = cur.position() as usize;
+    let b2 = cur.into_inner();
+    if r.is_err() || pos != buf.len() || b2[..pos.min(b2.len())] != buf[..] {
+        vfail!(
+            "wdt-write-depends-on-what-the-sink-held",
+            "WdtWriter::write ({what}) into a sink holding {} older bytes leaves the stream at {pos} / differs from the {}-byte file written into an empty sink",
+            buf.len() + 900,
+            buf.len()
+        );
+    }
     Ok(buf)
 }
 
